@@ -12,6 +12,9 @@ Rust, src/core/src/sketch/minhash.rs
 Python, src/sourmash/minhash.py
   * `intersection_and_union_size`, `jaccard`, `similarity`, `angular_similarity`,
     `contained_by`, `max_containment`, `avg_containment`                    -> `PyCmp.*`
+    (`contained_by` / `max_containment` as of /repo 0bf3075: both operands downsampled to the
+    common scaled when the flag is set and the scaled values differ, `count_common` before the
+    empty-sketch early return, denominator and bias factor from the downsampled self)
 Python, src/sourmash/sketchcomparison.py
   * `BaseMinHashComparison.check_compatibility_and_downsample`,
     `FracMinHashComparison` / `NumMinHashComparison` `__post_init__`        -> `PyCmp.fracNew`, `PyCmp.numNew`
@@ -212,23 +215,54 @@ def Cont.unbiased : Cont → F64.F
 
 def scaledGuard (s o : MH) : Bool := decide (scaledProp s ≠ 0 ∧ scaledProp o ≠ 0)
 
+/-- the head shared by `contained_by` and `max_containment`: with the downsample flag and
+    different (Python) scaled values BOTH sketches are downsampled to the larger one
+    (`self.downsample(scaled=…)`, which may raise); otherwise the operands themselves -/
+def prepare (s o : MH) (downsample : Bool) : Except Err (MH × MH) :=
+  if downsample ∧ scaledProp s ≠ scaledProp o then
+    let sc := max (scaledProp s) (scaledProp o)
+    match Py.downsample s none (some sc) with
+    | .error e => .error e
+    | .ok s' =>
+      match Py.downsample o none (some sc) with
+      | .error e => .error e
+      | .ok o' => .ok (s', o')
+  else .ok (s, o)
+
+/-- `contained_by` after the head: `common = self_mh.count_common(other_mh)` comes FIRST
+    (it refuses incompatible sketches), then the empty-sketch early return, then the ratio with
+    denominator and bias factor taken from `self_mh` -/
+def containedByCore (x y : MH) : Except Err Cont :=
+  match Cmp.countCommon x y false with
+  | .error e => .error e
+  | .ok cc =>
+    if x.mins.length = 0 then .ok .zero
+    else .ok (.ratio cc x.mins.length (scaledProp x))
+
 /-- `contained_by(other, downsample)` -/
 def containedBy (s o : MH) (downsample : Bool) : Except Err Cont :=
   if ¬ scaledGuard s o then .error .pyType
-  else if s.mins.length = 0 then .ok .zero
-  else do
-    let cc ← Cmp.countCommon s o downsample
-    pure (.ratio cc s.mins.length (scaledProp s))
+  else
+    match prepare s o downsample with
+    | .error e => .error e
+    | .ok (x, y) => containedByCore x y
+
+/-- `max_containment` after the head -/
+def maxContainmentCore (x y : MH) : Except Err Cont :=
+  match Cmp.countCommon x y false with
+  | .error e => .error e
+  | .ok cc =>
+    let md := min x.mins.length y.mins.length
+    if md = 0 then .ok .zero
+    else .ok (.ratio cc md (scaledProp x))
 
 /-- `max_containment(other, downsample)` -/
 def maxContainment (s o : MH) (downsample : Bool) : Except Err Cont :=
   if ¬ scaledGuard s o then .error .pyType
   else
-    let md := min s.mins.length o.mins.length
-    if md = 0 then .ok .zero
-    else do
-      let cc ← Cmp.countCommon s o downsample
-      pure (.ratio cc md (scaledProp s))
+    match prepare s o downsample with
+    | .error e => .error e
+    | .ok (x, y) => maxContainmentCore x y
 
 /-- `avg_containment(other, downsample)`: the two containments whose mean is returned -/
 def avgContainment (s o : MH) (downsample : Bool) : Except Err (Cont × Cont) :=
